@@ -258,12 +258,12 @@ Section Api.
 
   (* --------------------------------------------------------------- Start *)
 
-  Lemma follow_Step b base D : forall fuel s o s' r,
+  Lemma follow_Step b base D : forall fuel s o lk s' r,
     inv b base NX D s -> hok b D s o -> G P K s -> CLs s -> HPf false s o ->
-    follow fuel s o = (s', r) ->
-    Step s s' /\ match r with Ok o' => HPf false s' o' | _ => True end.
+    follow fuel s o lk = (s', r) ->
+    Step s s' /\ match r with Ok (o', _) => HPf false s' o' | _ => True end.
   Proof.
-    induction fuel as [|f IH]; intros s o s' r I [Hbo [ob [Ho HnD]]] HG C HP; cbn [follow]; rewrite Ho.
+    induction fuel as [|f IH]; intros s o lk s' r I [Hbo [ob [Ho HnD]]] HG C HP; cbn [follow]; rewrite Ho.
     - destruct (r_ref (o_rec ob)); intro E; injection E as <- <-;
         (split; [split; [exact HG | split; [apply hp_pres_refl | apply fr_refl]]|]); [exact Logic.I | exact HP].
     - destruct (r_ref (o_rec ob)) as [t|].
@@ -271,7 +271,7 @@ Section Api.
         destruct (cache_get_Step _ _ _ _ _ _ _ I HG C E1) as [S1 Hr2].
         destruct r1 as [o'|].
         * destruct Hr1 as [Hbo' [ob' (Ho' & _ & HnD' & _)]]. destruct Hr2 as [ob2 (Ho2 & Hid2 & HP2)].
-          intro E. destruct (IH s1 o' s' r I1) as [S2 Hr]; try exact E.
+          intro E. destruct (IH s1 o' t s' r I1) as [S2 Hr]; try exact E.
           -- split; [exact Hbo' | exists ob'; split; assumption].
           -- apply S1.
           -- eapply CLs_fr; [apply S1 | exact C].
@@ -302,9 +302,9 @@ Section Api.
         * rewrite sf_backstop; [| exact Hp | exact Hv | unfold isref; rewrite Hr; reflexivity | exact Hb].
           intro E. injection E as <- <- _. split; [apply cache_delete_Step; assumption | exact Logic.I].
         * rewrite (sf_ref _ _ _ _ _ _ _ t Hv Hr Hb).
-          destruct (follow (S (N.to_nat (supply s))) s o) as [s1 fr1] eqn:Ef.
-          destruct (follow_Step b base D _ _ _ _ _ I (conj Hbo (ex_intro _ ob (conj Ho HnD))) HG C (HPf_false _ _ _ HPo) Ef) as [S1 Hfr].
-          destruct fr1 as [o'|e|e]; intro E; injection E as <- <- _; [|split; [exact S1 | exact Logic.I]..].
+          destruct (follow (S (N.to_nat (supply s))) s o k) as [s1 fr1] eqn:Ef.
+          destruct (follow_Step b base D _ _ _ _ _ _ I (conj Hbo (ex_intro _ ob (conj Ho HnD))) HG C (HPf_false _ _ _ HPo) Ef) as [S1 Hfr].
+          destruct fr1 as [[o' lk']|e|e]; intro E; injection E as <- <- _; [|split; [exact S1 | exact Logic.I]..].
           assert (C1 : CLs s1) by (eapply CLs_fr; [apply S1 | exact C]).
           assert (S2 : Step s1 (hupd s1 o' (upd_req s1 q))) by (apply hupd_Step; [apply S1 | apply cl_upd; exact C1]).
           split; [eapply Step_trans; eassumption|]. cbn [res_HP]. apply S2. exact Hfr.
